@@ -53,6 +53,10 @@ pub open spec fn name_of(e: Errors, k: Error) -> Seq<char> {
         Error::ERROR => e.error@, Error::NIMPL => e.nimpl@, Error::SPILL => e.spill@, Error::CALC => e.calc@, Error::NULL => e.null@, Error::CIRC => e.circ@,
     }
 }
+pub open spec fn names_nonempty(e: Errors) -> bool {
+    e.r#ref@.len() > 0 && e.name@.len() > 0 && e.value@.len() > 0 && e.div@.len() > 0 && e.na@.len() > 0 && e.num@.len() > 0
+        && e.error@.len() > 0 && e.nimpl@.len() > 0 && e.spill@.len() > 0 && e.calc@.len() > 0 && e.null@.len() > 0 && e.circ@.len() > 0
+}
 /// `<&str> == <String>`
 pub trait VerifEq { fn verif_eq(&self, o: &String) -> (r: bool); }
 impl VerifEq for str { #[verifier::external_body] fn verif_eq(&self, o: &String) -> (r: bool) ensures r == (self@ == o@) { self == o } }
@@ -60,6 +64,7 @@ impl VerifEq for str { #[verifier::external_body] fn verif_eq(&self, o: &String)
 // only for that kind's localized name, and every localized name is answered by SOME kind carrying the same name
 //@fn base/src/expressions/token.rs get_error_by_name
 //@spec
+    requires names_nonempty(language.errors)       // data invariant of the language tables: every error name starts with '#'
     ensures r matches Some(k) ==> name@ == name_of(language.errors, k),
         forall|k: Error| name@ == #[trigger] name_of(language.errors, k) ==> r is Some,
 //@rewrite `-> Option<Error> {` => `-> (r: Option<Error>) {`
